@@ -41,6 +41,7 @@ def run(ctx):
     ctx.do(rule_commit_last)
     ctx.do(rule_registry_class_attr)
     ctx.do(rule_input_parsers_guarded)
+    ctx.do(rule_recursion_converted)
     from .hidden_state import rule_no_hidden_state
     ctx.do(rule_no_hidden_state, "C17.history-independence")
 
@@ -513,3 +514,67 @@ def rule_input_parsers_guarded(ctx):
                       found=short(c))
     if n < 2:
         raise AnalysisError("fewer than 2 calls into input-parsing packages found in constraint methods (%d)" % n)
+
+
+def rule_recursion_converted(ctx):
+    """RecursionError is named in the property: it must not escape.  Inside a property cleaner it is converted by the generic
+    wrapper.  OUTSIDE the wrapper -- the object constraints, the deterministic id, the copies made by the parser entry points --
+    every call that walks input content recursively (a self-recursive function of the package is reachable from the callee, or
+    the callee is copy.deepcopy of raw input) sits in a try that catches RecursionError (or Exception) and raises a library
+    error."""
+    from ..astutil import in_try_catching
+    from ..loader import External
+    run = ctx.run
+    prog = ctx.prog
+    R = "C17.recursion-converted"
+    cg = get_callgraph(prog)
+    edges = cg.edges()
+    # self-recursive functions (direct recursion is the only kind in the content walkers of this package)
+    rec = set()
+    for f in prog.functions.values():
+        for c, ts in edges.get(f.id, []):
+            if any(t.func is f or (t.func is not None and t.func.parent_func is f) for t in ts):
+                rec.add(f)
+        # generators nested in a builder that call each other (the canonicaliser's _iterencode*)
+        for g_ in prog.functions.values():
+            if g_.parent_func is f:
+                for c, ts in edges.get(g_.id, []):
+                    if any(t.func is not None and t.func.parent_func is f for t in ts):
+                        rec.add(g_)
+    walkers = {f for f in rec if f.module.name.startswith(("stix2.markings.utils", "stix2.base", "stix2.canonicalization", "stix2.utils"))}
+    if len(walkers) < 3:
+        raise AnalysisError("fewer than 3 recursive content walkers found (%d)" % len(walkers))
+    sbase = prog.cls("stix2.base::_STIXBase")
+    zone = [f for f in prog.functions.values() if (f.cls is not None and sbase in f.cls.mro and f.name == "__init__"
+                                                   and f.module.name in ("stix2.base", "stix2.v21.base"))
+            or f.id in ("stix2.parsing::parse_observable", "stix2.parsing::dict_to_stix2")]
+    n = 0
+    reach_cache = {}
+    for fi in sorted(zone, key=lambda f: f.id):
+        for call in cg.calls_in(fi):
+            hit = None
+            d = prog.deref(prog.resolve_expr(prog.enclosing_scope(call), call.func)) if isinstance(call.func, (ast.Name, ast.Attribute)) else None
+            if isinstance(d, External) and d.dotted == "copy.deepcopy":
+                hit = "copy.deepcopy"
+            else:
+                for t in cg.resolve(call, fi):
+                    if t.func is None or t.kind != EXACT:
+                        continue
+                    if call_simple_name(call) in ("_check_property", "__init__"):
+                        continue        # cleaners run under the wrapper; constructors are judged themselves
+                    if t.func.id not in reach_cache:
+                        reach_cache[t.func.id] = cg.reachable([t.func], kinds=(EXACT,)) & walkers
+                    if reach_cache[t.func.id]:
+                        hit = sorted(w.qualname for w in reach_cache[t.func.id])[0]
+            if hit is None:
+                continue
+            n += 1
+            tr = in_try_catching(call, names=("RecursionError", "RuntimeError", "Exception", "BaseException"))
+            run.check(tr is not None, R, key(fi.module.relpath, fi.qualname, "guarded:%s" % short(call, 50)),
+                      "RecursionError can escape: %s walks input content recursively (%s) outside the exception wrapper of the "
+                      "property cleaners and is not inside a try that converts it -- content nested a few hundred levels deep "
+                      "(still decodable JSON) makes parse() / the constructor raise RecursionError" % (short(call, 40), hit),
+                      file=fi.module.relpath, line=call.lineno, function=fi.qualname,
+                      expected="try: ... except RecursionError: raise <library error>", found=short(call))
+    if n < 3:
+        raise AnalysisError("fewer than 3 recursive walks outside the wrapper found (%d)" % n)
